@@ -384,6 +384,11 @@ PROPS = {
                               "orders": (2, 2, 3, 2, 3, 4)},
                     "thorough": {"n": 48, "which": ("spg",), "explicit_ops": 1.0, "min_nlp": 2, "max_N": (10, 6, 4)},
                     "search": {"n": 36, "which": ("spg",), "explicit_ops": 1.0, "min_nlp": 2, "max_N": (8, 6, 4)}},
+                   # order 4 with caller-supplied operation lists in several orders (cheap: <= 4 atoms)
+                   {"name": "basis_spg_explicit_ops_o4", "fn": o_basis,
+                    "quick": {"n": 12, "which": ("spg",), "explicit_ops": 1.0, "orders": (4,), "max_N": (8, 6, 4)},
+                    "thorough": {"n": 60, "which": ("spg",), "explicit_ops": 1.0, "orders": (4,), "max_N": (8, 6, 4)},
+                    "search": {"n": 48, "which": ("spg",), "explicit_ops": 1.0, "orders": (4,), "max_N": (8, 6, 4)}},
                    # hexagonal structures whose coordinates are written with seven decimals (1/3 -> 0.3333333): invariance
                    # under the operations spglib finds at its DEFAULT tolerance
                    {"name": "basis_spg_seven_decimals", "fn": o_basis,
